@@ -18,6 +18,7 @@ import (
 type replayEntry struct {
 	Function string `json:"function"` // unit name pattern (wildcards allowed)
 	Template string `json:"template"`
+	Obligation string `json:"obligation"` // optional: only for obligations whose name contains this
 	Pkg      string `json:"pkg"` // package directory relative to the repository root
 	Run      string `json:"run"`
 }
@@ -110,7 +111,7 @@ func smtUnquote(v string) string {
 
 func runReplayTemplate(rf *replayFile) {
 	for _, e := range loadReplayIndex() {
-		if !wildcard(e.Function, rf.Function) {
+		if !wildcard(e.Function, rf.Function) || e.Obligation != "" && !strings.Contains(rf.Obligation, e.Obligation) {
 			continue
 		}
 		src, err := os.ReadFile(filepath.Join(VerifDir, "replay", e.Template))
